@@ -114,6 +114,9 @@ func looseCompare(want model.Doc, got []klog.Record) error {
 			if len(ws) == 0 {
 				ws = []string{""}
 			}
+			if we.CarryTags != nil && model.PauseSummaryAcceptable(gs, we.CarryBase, we.CarryTags) {
+				continue // the open range's tags are carried over (possibly without repeating those the user wrote)
+			}
 			if len(gs) != len(ws) {
 				return fmt.Errorf("record %d (%s) entry %d: summary %q, want %q", i, w.Date.Lit(), j, gs, ws)
 			}
